@@ -30,6 +30,7 @@ type SType struct {
 	Fields   []SField
 	SRepr    string // struct: map tuple join listpairs
 	Delim    string // join / prefix delimiter
+	Ambig    bool   // a stringprefix union with a discriminant that holds the delimiter (SchemaCfg.PrefixDiscHoldsDelim)
 	Members  []SMember
 	URepr    string // union: keyed kinded prefix
 	Enum     []SEnum
@@ -454,6 +455,11 @@ type SchemaCfg struct {
 	TupleLooseOptional    int // tuple structs with optional fields anywhere / absent before present
 	UnionAnyMember        int // `any` as a union member (bindnode cannot read such a member back)
 	EnumEmptyRename       int // a string enum member renamed to the empty string (bindnode reads the name back)
+	// a stringprefix union one of whose discriminants holds the union's own delimiter (or ends in the first character of
+	// a two-character delimiter): text is cut at the FIRST delimiter, so that member's own representation reads back
+	// as another member or not at all.  Off by default: the round-trip oracles of C08/C09 assume unambiguous strategies;
+	// types made this way are marked Ambig.
+	PrefixDiscHoldsDelim int
 }
 
 var DefaultSchemaCfg = SchemaCfg{MaxDepth: 3, NullableDispatchUnion: 12, KindedIntEnum: 10, TupleLooseOptional: 12, UnionAnyMember: 0, EnumEmptyRename: 3}
@@ -658,6 +664,19 @@ func (cfg SchemaCfg) genUnion(r *Rand, depth int, ctx genCtx, urepr string) *STy
 		for _, d := range pickDistinct(r, pool, n) {
 			m := cfg.genStringy(r, depth+1, genCtx{stringy: true, sdepth: ctx.sdepth + 1, safe: true})
 			t.Members = append(t.Members, SMember{T: m, Disc: d, Kind: m.ReprKind()})
+		}
+		if t.Delim != "" && cfg.PrefixDiscHoldsDelim > 0 && r.Chance(cfg.PrefixDiscHoldsDelim, 100) {
+			t.Ambig = true
+			switch k := r.Intn(3); {
+			case k == 0 && len(t.Members) >= 2:
+				// "urn" and "urn:isbn" under ":" - the longer one can be written but never read
+				t.Members[1].Disc = t.Members[0].Disc + t.Delim + "x"
+			case k == 1 && len(t.Delim) == 2:
+				// discriminant ending in the delimiter's first character: "a:" under "::" writes "a:::x", cut after "a"
+				t.Members[0].Disc += t.Delim[:1]
+			default:
+				t.Members[len(t.Members)-1].Disc += t.Delim + "z"
+			}
 		}
 	case "keyed":
 		pool := discPool
